@@ -141,7 +141,7 @@ func runC04(c *Ctx) {
 	c.Min(3)
 	makeMObj := makeM.Object().(*types.Func)
 	chooseObj := choose.Object().(*types.Func)
-	sortitionFn := w.Fn(uconPkg, "", "sortition")
+	sortitionFn := w.FnOpt(uconPkg, "", "sortition") // the prover's wrapper around choose; may be inlined
 	pShapes := map[string][]string{}
 	for _, fn := range []*ssa.Function{vs, vvs, vvp} {
 		c.sites++
@@ -163,7 +163,7 @@ func runC04(c *Ctx) {
 		var pArg, stakeArg ssa.Value
 		if cs := callsTo(fn, chooseObj); len(cs) == 1 {
 			pArg, stakeArg = callArgs(cs[0])[2], callArgs(cs[0])[1]
-		} else if cs := callsTo(fn, sortitionFn.Object().(*types.Func)); len(cs) == 1 {
+		} else if cs := callsToOpt(fn, sortitionFn); len(cs) == 1 && len(callArgs(cs[0])) >= 4 {
 			pArg, stakeArg = callArgs(cs[0])[3], callArgs(cs[0])[2]
 		} else {
 			bad = append(bad, "no choose/sortition call")
@@ -190,14 +190,19 @@ func runC04(c *Ctx) {
 	sort.Strings(shapeList)
 	c.Check("consensus/ucon#one-probability-expression", vs.Pos(), len(pShapes) == 1, ifelse(len(pShapes) == 1, "prover and both verifiers compute p by the same expression: "+strings.Join(shapeList, ""), "prover and verifiers compute the selection probability differently ("+strings.Join(shapeList, " | ")+"): an honest credential does not verify, or a dishonest one does"))
 	// sortition forwards to choose with the VRF value
-	okS := false
-	for _, ci := range callsTo(sortitionFn, chooseObj) {
-		a := callArgs(ci)
-		if stripConv(a[1]) == ssa.Value(sortitionFn.Params[2]) && stripConv(a[2]) == ssa.Value(sortitionFn.Params[3]) {
-			okS = true
+	if sortitionFn != nil {
+		okS := false
+		for _, ci := range callsTo(sortitionFn, chooseObj) {
+			a := callArgs(ci)
+			if len(sortitionFn.Params) >= 4 && stripConv(a[1]) == ssa.Value(sortitionFn.Params[2]) && stripConv(a[2]) == ssa.Value(sortitionFn.Params[3]) {
+				okS = true
+			}
 		}
+		c.Check(fname(sortitionFn)+"#forwards-to-choose", sortitionFn.Pos(), okS, "sortition = choose(Evaluate(m), w, p)")
+	} else {
+		direct := len(callsTo(vs, chooseObj)) == 1
+		c.Check(fname(vs)+"#forwards-to-choose", vs.Pos(), direct, ifelse(direct, "the prover calls choose(Evaluate(m), stake, p) itself", "the prover neither calls choose nor a sortition wrapper"))
 	}
-	c.Check(fname(sortitionFn)+"#forwards-to-choose", sortitionFn.Pos(), okS, "sortition = choose(Evaluate(m), w, p)")
 
 	// ------------------------------------------------------------ B3
 	c.Rule("C04.B3", "EXIT", "VrfVerifySortition returns true only with ProofToHash == nil, j > 0 and uint32(j) == subUsers; VrfVerifyPriority returns only with ProofToHash == nil and uint32(j) == subUsers, and its verdict is the comparison of computePriority(hash, j) with the claimed priority; ProofToHash returns an index only under hmac.Equal(s, H2(transcript)) where the transcript includes H1(m), the public key and the VRF point")
@@ -466,4 +471,16 @@ func c04Variants() []Variant {
 		{Name: "seat-count-not-compared", File: f, Old: "	if j <= 0 {\n		return false, fmt.Errorf(\"not a validator.\")\n	}\n	if uint32(j) != subUsers {\n		return false, fmt.Errorf(\"sub-users' number is not correct:%x,%x\", j, subUsers)\n	}\n", New: "	if j <= 0 {\n		return false, fmt.Errorf(\"not a validator.\")\n	}\n	_ = subUsers\n", Rule: "C04.B3", Construct: "VrfVerifySortition"},
 		{Name: "verifier-uses-other-p", File: f, Old: "	j := choose(hash, stake, pFloat)\n	if j <= 0 {", New: "	j := choose(hash, stake, pFloat/2)\n	if j <= 0 {", Rule: "C04.B2", Construct: ""},
 	}
+}
+
+// callsToOpt: calls of an optional anchor (nil if it does not exist).
+func callsToOpt(fn *ssa.Function, callee *ssa.Function) []ssa.CallInstruction {
+	if callee == nil {
+		return nil
+	}
+	o, ok := callee.Object().(*types.Func)
+	if !ok {
+		return nil
+	}
+	return callsTo(fn, o)
 }
